@@ -41,6 +41,7 @@ import BumpProof.Lemmas.CollExtract
 import BumpProof.Lemmas.CollRev
 import BumpProof.Lemmas.CollRevPerm
 import BumpProof.Lemmas.CollZst
+import BumpProof.Lemmas.CollSplice
 
 namespace C06
 open Coll
@@ -601,6 +602,45 @@ theorem rev_append_drops_once (env : Env) (v other : Vec) (hv : v.RWF) (ho : oth
     have h2 := hw.2
     simp only [List.append_nil] at h2
     simpa [appendedOther] using List.Perm.append_right other.abs h2
+
+/-! ## `BumpVec::splice` (`Coll/Splice.lean`: `bump_vec/splice.rs` + `bump_vec/drain.rs`) -/
+
+/-- `splice(start..end, replace_with)`, any pulls, then the `Splice` is dropped — for every range, source,
+    `size_hint` behaviour of the source, and set of panicking destructors: no fault, the vector is well-formed,
+    and every old value and every value of `replace_with` is accounted for exactly once (also when a destructor
+    of the drained range panics inside `Splice::drop`, and when the range check panics: `replace_with` is dropped) -/
+theorem splice_drops_once (env : Env) (hk : env.kind = .bump) (v : Vec) (start end_ : Nat) (src : List Id) (hint : Nat)
+    (script : List Pull) (hv : v.WF) (hfresh : (v.total ++ src).Nodup) :
+    DropsOnce (splice env v start end_ src hint script) v src := by
+  have ⟨hs, hl⟩ := hv.slots_eq
+  obtain ⟨v', e, h, hc⟩ := splice_holds env hk v v.abs start end_ src hint script hs hl
+  have ⟨g, gc⟩ := growTo_grows hs hl v'.cap
+  have hcap' : (growTo v v'.cap).cap = v'.cap := by rw [gc]; omega
+  have hfl : (spliceSpec env.bombs v.abs start end_ src script).final.length ≤ v'.cap := by
+    have h1 := congrArg List.length h.slots
+    have h2 := h.len
+    simp only [List.length_append, length_I, length_H] at h1
+    have : v'.slots.length = v'.cap := rfl
+    omega
+  have hv' : v' = (growTo v v'.cap).after (spliceSpec env.bombs v.abs start end_ src script) := by
+    apply Vec.eq_of
+    · rw [h.slots]; simp only [Vec.after]; rw [hcap', h.len]
+    · simp only [Vec.after]; exact h.len.symm
+    · simp only [Vec.after]; rw [h.dropLog]; rfl
+    · simp only [Vec.after]; rw [h.escaped]; rfl
+  rw [hv'] at e
+  exact dropsOnce_grown hv g e (spliceSpec_perm _ _ _ _ _ _) (by rw [hcap']; exact hfl) hfresh
+
+/-- non-vacuity: `[1,2,3,4,5].splice(1..3, [10,11,12,13])`, one `next()`; the source under-reports its length
+    (`size_hint().0 ≤ 1`), so `move_tail` runs twice and the vector reallocates -/
+example : splice { kind := .bump } (Vec.mk' [1, 2, 3, 4, 5] 0) 1 3 [10, 11, 12, 13] 1 [.front] =
+    .ok ⟨{ slots := I [1, 10, 11, 12, 13, 4, 5] ++ H 3, len := 7, dropLog := [3], escaped := [2] }, .ret [some 2], []⟩ := by
+  decide
+
+/-- the destructor of 3 panics inside `Splice::drop`: the range is removed, the tail moves back, `replace_with`
+    is dropped unused -/
+example : splice { kind := .bump, bombs := [3] } (Vec.mk' [1, 2, 3, 4, 5, 6] 0) 1 5 [10, 11] 0 [] =
+    .ok ⟨{ slots := I [1, 6] ++ H 4, len := 2, dropLog := [2, 3, 4, 5, 10, 11] }, .panic true, []⟩ := by decide
 
 /-! ## histories (`Coll/Run.lean`): any finite sequence of modelled operations -/
 
